@@ -214,3 +214,19 @@ package db
 //@ func OpenSwappable
 //@   assigns *, optHas, optVal, handleOpen, handleDSN, onceDone
 //@   ensures [usable] result1 == nil ==> result0 != nil
+//
+// ---- C21: the SQL dump is one point in time -----------------------------------------------------------
+// Dump: every read that produces the dump (schema, table_info, rows, indexes/triggers/views) is
+// issued on the one connection inside one read transaction opened before the first read, so all of
+// them see the same committed state; the transaction is ended on every path.
+//@ func (*DB) Dump
+//@   requires [recv] db != nil && db.roDB != nil
+//@   ghost var inReadTx bool = false
+//@   ghost var theConn int = 0
+//@   ghost update @db.roDB.Conn: theConn = result0
+//@   ghost update @?conn.ExecContext#1: inReadTx = (result1 == nil && arg1 == "BEGIN")
+//@   assert @db.queryWithConn: [one-read-transaction] inReadTx && arg3 == theConn && !arg1.Transaction
+//@   loop 1 invariant [tx-open] inReadTx
+//@   loop 2 invariant [tx-open] inReadTx
+//@   loop 3 invariant [tx-open] inReadTx
+//@   loop 4 invariant [tx-open] inReadTx
